@@ -130,7 +130,21 @@ class StructureDetector:
             # Create shape:
             shape = LoopShape(s1)
             if follow_up:
-                s3 = self.make_shape(follow_up)
+                enclosing_loop, enclosing_follow_up = self.loop_stack[-1]
+                if (
+                    len(self.loop_stack) > 1
+                    and follow_up is enclosing_loop.header
+                ):
+                    # This loop is left towards the start of the loop around
+                    # it: that is the next round of that loop, not new code.
+                    s3 = ContinueShape(0)
+                elif (
+                    len(self.loop_stack) > 1
+                    and follow_up is enclosing_follow_up
+                ):
+                    s3 = BreakShape(0)
+                else:
+                    s3 = self.make_shape(follow_up)
                 shape = SequenceShape([shape, s3])
         elif len(entry.successors) == 1:
             # Simple straight ahead:
